@@ -270,6 +270,36 @@ def ver_hash_key(ver: str | None, rev) -> tuple | None:
     return (tuple(key), letter, tuple(suffixes), int(rev) if rev else 0)
 
 
+def ver_glob_match(glob_ver: str, glob_rev, ver: str, rev) -> bool:
+    """Check if a version is matched by the glob dependency ``=glob_ver[-rglob_rev]*``.
+
+    PMS: only the given number of version components is used for the
+    comparison.  The components written in the glob (numbers, letter,
+    suffixes, revision) must be a prefix of the components of the version,
+    each compared as :func:`ver_cmp` would; so 1* matches 1, 1.0, 1a, 1_p1 and
+    1-r2, but not 10.
+    """
+    glob_nums, glob_letter, glob_suffixes, glob_rev = ver_hash_key(glob_ver, glob_rev)
+    nums, letter, suffixes, rev = ver_hash_key(ver, rev)
+    if glob_rev:
+        # nothing follows a revision; everything has to be equal
+        return (glob_nums, glob_letter, glob_suffixes, glob_rev) == (
+            nums,
+            letter,
+            suffixes,
+            rev,
+        )
+    if glob_suffixes:
+        return (
+            glob_nums == nums
+            and glob_letter == letter
+            and suffixes[: len(glob_suffixes)] == glob_suffixes
+        )
+    if glob_letter:
+        return glob_nums == nums and glob_letter == letter
+    return nums[: len(glob_nums)] == glob_nums
+
+
 class CPV(base.base):
     """base ebuild package class
 
